@@ -587,6 +587,8 @@ func c16(c *Ctx) {
 
 	// the opcode table as the code derives it (+ baked-table regeneration when asked)
 	c16EmitTable(c, w)
+	// length-driven precompiles, executed in a memory-capped child process
+	c16PrePhase(c)
 	w.longBudget = 12
 	if c.Tier == "thorough" {
 		w.longBudget = 120
